@@ -23,9 +23,13 @@ TRUSTED = [
 
 ASSUMPTIONS = [
     "C07_validate_idempotent_partial assumes the validated tree is in the normal form (Implicit.normalb) and that the second "
-    "validation returns at all; C07_implicit_exact_partial / C07_validate_idempotent_fresh prove the normal form for freshly "
-    "parsed canonical input (Implicit.freshb: all nodes new and explicit, no empty NP container, no siblings in two cases of a "
-    "choice) - for histories it is only evaluated at run time; C07_wd_modes_rfc6243_partial assumes consistent flags "
+    "validation returns at all; C07_implicit_exact_edited_partial / C07_validate_idempotent_edited prove the normal form for "
+    "EDITED input (Implicit.editedb, executable: new nodes are explicit, the default instances of a schema node are none or "
+    "complete with no old explicit instance beside them, nodes under their schema parent, NP container flags consistent; "
+    "canonical order NOT required) - the correspondence run evaluates editedb on every tree handed to a validation (field H: "
+    "about 90% of the generated histories satisfy it) and a tree with H=1 whose result is not the normal form is never "
+    "accepted as a known finding; C07_implicit_exact_partial / C07_validate_idempotent_fresh are the special case of freshly "
+    "parsed canonical input (Implicit.freshb) and add that the explicit content is kept; C07_wd_modes_rfc6243_partial assumes consistent flags "
     "(WithDefaults.wd_wf_forest) and LYD_PRINT_KEEPEMPTYCONT off; C07_dflt_flag_sound assumes sound flags on the input; "
     "C07_validate_canon assumes a canonical input. The correspondence run evaluates these executable hypotheses / conclusions "
     "(Q / W fields of the model's answer) on EVERY tree libyang hands to or gets from a validation / print of the generated "
@@ -46,10 +50,14 @@ MANIFEST = {
             "instance exists), then the same for the children of every inner node, finally lyd_validate_final_r (mandatory, "
             "min / max-elements, lyd_np_cont_dflt_set) with the sequence of lyd_val_diff_add calls as change list - and about "
             "WithDefaults.wd_print_forest (lyd_node_should_print, lyd_is_default, the default tag of xml_print_meta, the "
-            "printer's child loop) on the shared Tree.v model. Proved: for freshly parsed canonical input a successful "
-            "validation reaches the RFC 7950 normal form - the default-flagged nodes are exactly the defaults required for the "
-            "explicit nodes - and keeps the explicit content (C07_implicit_exact_partial), so validating it again changes "
-            "nothing and reports nothing (C07_validate_idempotent_fresh); validation and lyd_new_implicit_all keep the tree "
+            "printer's child loop) on the shared Tree.v model. Proved: for EDITED input (a tree after any edits that mark what they "
+            "touch as new; executable hypothesis Implicit.editedb, siblings need not be canonical) a successful validation reaches "
+            "the RFC 7950 normal form - the default-flagged nodes are exactly the defaults required for the explicit nodes "
+            "(C07_implicit_exact_edited_partial: lyd_validate_choice_r leaves one populated case per choice for ANY input, the "
+            "node loop of lyd_validate_new in closed form, lyd_validate_autodel_case_dflt as of 357db45, completeness of "
+            "lyd_new_implicit) - so validating it again changes nothing and reports nothing (C07_validate_idempotent_edited); "
+            "freshly parsed canonical input is a special case and also keeps its explicit content (C07_implicit_exact_partial, "
+            "C07_validate_idempotent_fresh); validation and lyd_new_implicit_all keep the tree "
             "canonical, every created node placed by Tree.insert_node (C07_validate_canon, C07_implicit_all_canon); a tree in "
             "the RFC 7950 normal form (an independent "
             "executable spec: exactly the required default leaves / leaf-list values / NP containers per 7.6.1, 7.7.2, 7.5.1, "
@@ -58,9 +66,10 @@ MANIFEST = {
             "default-flagged term holds one of its schema defaults (C07_dflt_flag_sound, _implicit); for all five with-defaults "
             "modes the printed node set and the default tags equal the RFC 6243 view defined independently over (default flag, "
             "value = schema default, config) on trees with consistent flags (C07_wd_modes_rfc6243_partial). Refuted with "
-            "witnesses (all confirmed on libyang, listed findings): the normal form is not always reached "
-            "(C07_implicit_exact_refuted_nested_case, _leaflist), the change list of a second validation need not be empty "
-            "(C07_validate_idempotent_refuted), the change list is not exact (C07_change_set_exact_refuted), trim mode deviates "
+            "witnesses (confirmed on libyang, listed findings): the normal form is not reached when one of several default "
+            "leaf-list instances was freed (C07_implicit_exact_refuted_leaflist; the witness of the former finding "
+            "dflt-nested-case-leftover, fixed by 357db45, is now the regression theorem C07_nested_case_regression), the change "
+            "list is not exact (C07_change_set_exact_refuted), trim mode deviates "
             "for leaf-lists (C07_wd_modes_rfc6243_refuted). Tie: component dfltmodel runs generated modules (defaults, default "
             "leaf-lists, nested choices with default cases, NP / presence containers, lists) x trees from PARSE_ONLY parses and "
             "edit histories (free / change / new path / tagged print parsed back) through lyd_validate_all / "
@@ -69,9 +78,9 @@ MANIFEST = {
             "identical; the model also evaluates the theorem hypotheses and conclusions (normal form reached, change list "
             "replays to the tree after, flags consistent and sound, canonical input) on every one of these trees. The API oracle "
             "validate-idem checks the same laws through lyd_diff_apply_all.",
-    "note": "PARTIAL. Not proved: that validation of an EDITED tree reaches the normal form (proved for freshly parsed input "
-            "only; for histories checked at run time on every generated case; false for the two listed deviations), that the "
-            "second validation does not fail, exactness of the change list "
+    "note": "PARTIAL. Not proved: the normal form for inputs outside Implicit.editedb (nodes that are new AND default, "
+            "incomplete default leaf-lists = deviation dflt-leaflist-partial; checked at run time on every generated case), "
+            "that the second validation does not fail, exactness of the change list "
             "(checked at run time by replaying the model's change list; false for vdiff-np-container; libyang's own diff "
             "additionally fails with LY_EINVAL in finding vdiff-np-recreate and is wrong for duplicate-instance lists, "
             "vdiff-dupinst). Not modelled: when / must / unique / leafref, several modules (with data of "
